@@ -15,7 +15,6 @@ use fuel_core_storage::{
         KeyValueInspect,
         KeyValueMutate,
         StorageColumn,
-        StorageReadError,
         Value,
         WriteOperation,
     },
@@ -26,6 +25,7 @@ use fuel_core_storage::{
         StorageTransaction,
     },
 };
+use fuel_core_storage::StorageReadError;
 use simkit::Ctx;
 use std::{
     cell::Cell,
